@@ -14,6 +14,6 @@ CHECKS["C01"] = dict(
           "Non-trivial = a script with >=2 commits on some channel and a read with a bound strictly inside stored data; distinct by script hash."),
     assumptions=["writes obey the documented rules of writes (one series per writer channel, equal lengths, increasing timestamps >= start)",
                  "a step that returns an error ends the script and is counted as discarded, not as a violation (the property conditions on successful writes)"],
-    tests=[dict(name="TestC01", quick=dict(cases=600, shards=4), thorough=dict(cases=5000, shards=16, timeout=2400)),
+    tests=[dict(name="TestC01", quick=dict(cases=600, shards=8), thorough=dict(cases=5000, shards=16, timeout=2400)),
            dict(name="TestC01AutoIndex", quick=dict(cases=500, shards=2), thorough=dict(cases=5000, shards=8, timeout=2400))],
 )
